@@ -106,3 +106,23 @@ def ref_groups(tbl, key):
         else:
             groups.append((k, [r]))
     return groups
+
+
+def same_multiset(a, b):
+    """Multiset equality of two row lists under == (rows may hold unhashable cells)."""
+    if len(a) != len(b):
+        return False
+    try:
+        from collections import Counter
+        return Counter(a) == Counter(b)
+    except TypeError:
+        pass
+    rest = list(b)
+    for r in a:
+        for i, s in enumerate(rest):
+            if r == s:
+                del rest[i]
+                break
+        else:
+            return False
+    return not rest
